@@ -88,7 +88,7 @@ def run(name, props):
         for p in props:
             evd = "/tmp/seed-evid-%s-%d" % (name, os.getpid())
             os.makedirs(evd + "/replays", exist_ok=True)
-            env = dict(GOENV, VERIF_REPO=wt, VERIF_EVIDENCE_DIR=evd)
+            env = dict(GOENV, VERIF_REPO=wt, VERIF_EVIDENCE_DIR=evd, VERIF_REUSE_PROOFS="1")
             t0 = time.time()
             rc, out = sh("bin/check %s --tier quick" % p, cwd="/verif", env=env, timeout=3000)
             lines = [l for l in out.split("\n") if l.startswith(("VIOLATION", "KNOWN-FINDING", "PASS", "FAIL"))]
@@ -131,7 +131,7 @@ def harvest(name, seeds):
             evd = "/tmp/seed-evid-%s-%d" % (name, os.getpid())
             shutil.rmtree(evd, ignore_errors=True)
             os.makedirs(evd + "/replays", exist_ok=True)
-            env = dict(GOENV, VERIF_REPO=wt, VERIF_EVIDENCE_DIR=evd, VERIF_SEED=str(seed))
+            env = dict(GOENV, VERIF_REPO=wt, VERIF_EVIDENCE_DIR=evd, VERIF_SEED=str(seed), VERIF_REUSE_PROOFS="1")
             rc, out = sh("bin/check %s --tier quick" % prop, cwd="/verif", env=env, timeout=3000)
             for fn in sorted(os.listdir(evd + "/replays")):
                 r = json.load(open(os.path.join(evd, "replays", fn)))
